@@ -109,6 +109,12 @@ func runC12(s *Sim) {
 		m3, err := l.decode(b3)
 		if err != nil || !reflect.DeepEqual(m2, m3) || fmt.Sprintf("%T", m) != fmt.Sprintf("%T", m2) {
 			s.Violate("C12.not-self-consistent", fmt.Sprintf("%T", m), "%s: decoded %T does not survive encode/decode (err=%v)", what, m, err)
+			return
+		}
+		// and the message itself decodes back to itself (an absent collection or sub-message and an
+		// empty one are the same message)
+		if where, ok := canonEqual(reflect.ValueOf(m), reflect.ValueOf(m2), "", 0); !ok {
+			s.Violate("C12.not-self-consistent", fmt.Sprintf("%T:value", m), "%s: a decoded %T re-encodes to bytes that decode to a different message (differs at %s)", what, m, where)
 		}
 	}
 	for step := 0; step < steps; step++ {
@@ -416,6 +422,147 @@ func oracleMaxMessageSize(s *Sim, y *Sys) {
 	}
 }
 
+// setEnumFields sets every field of a named int32 type (the generated enums) to a small number.
+func setEnumFields(t *Tape, v reflect.Value, depth int) int {
+	for v.Kind() == reflect.Ptr || v.Kind() == reflect.Interface {
+		if v.IsNil() {
+			return 0
+		}
+		v = v.Elem()
+	}
+	if depth > 6 {
+		return 0
+	}
+	n := 0
+	switch v.Kind() {
+	case reflect.Struct:
+		for i := 0; i < v.NumField(); i++ {
+			f := v.Field(i)
+			if !f.CanSet() || strings.HasPrefix(v.Type().Field(i).Name, "XXX_") {
+				continue
+			}
+			if f.Kind() == reflect.Int32 && f.Type().Name() != "int32" {
+				f.SetInt(int64(t.Choose("enum-v", 128)))
+				n++
+				continue
+			}
+			n += setEnumFields(t, f, depth+1)
+		}
+	case reflect.Slice:
+		for i := 0; i < v.Len(); i++ {
+			n += setEnumFields(t, v.Index(i), depth+1)
+		}
+	}
+	return n
+}
+
+// canonEqual compares two decoded messages up to the canonical form: nil and empty collections are
+// equal, a nil pointer equals a pointer to a value that is entirely zero/empty.
+func canonEqual(a, b reflect.Value, path string, depth int) (string, bool) {
+	if depth > 12 {
+		return path, true
+	}
+	for a.IsValid() && a.Kind() == reflect.Interface && !a.IsNil() {
+		a = a.Elem()
+	}
+	for b.IsValid() && b.Kind() == reflect.Interface && !b.IsNil() {
+		b = b.Elem()
+	}
+	empty := func(v reflect.Value) bool {
+		if !v.IsValid() {
+			return true
+		}
+		switch v.Kind() {
+		case reflect.Ptr, reflect.Interface:
+			return v.IsNil() || isCanonZero(v.Elem(), 0)
+		case reflect.Slice, reflect.Map:
+			return v.Len() == 0
+		}
+		return isCanonZero(v, 0)
+	}
+	if empty(a) && empty(b) {
+		return path, true
+	}
+	if !a.IsValid() || !b.IsValid() {
+		return path, false
+	}
+	if a.Kind() == reflect.Ptr || b.Kind() == reflect.Ptr {
+		if a.Kind() == reflect.Ptr && a.IsNil() || b.Kind() == reflect.Ptr && b.IsNil() {
+			return path, false
+		}
+		if a.Kind() == reflect.Ptr {
+			a = a.Elem()
+		}
+		if b.Kind() == reflect.Ptr {
+			b = b.Elem()
+		}
+		return canonEqual(a, b, path, depth+1)
+	}
+	if a.Type() != b.Type() {
+		return path + "(type)", false
+	}
+	switch a.Kind() {
+	case reflect.Struct:
+		for i := 0; i < a.NumField(); i++ {
+			if !a.Type().Field(i).IsExported() {
+				continue
+			}
+			if w, ok := canonEqual(a.Field(i), b.Field(i), path+"."+a.Type().Field(i).Name, depth+1); !ok {
+				return w, false
+			}
+		}
+		return path, true
+	case reflect.Slice, reflect.Array:
+		if a.Len() != b.Len() {
+			return path + "(len)", false
+		}
+		for i := 0; i < a.Len(); i++ {
+			if w, ok := canonEqual(a.Index(i), b.Index(i), fmt.Sprintf("%s[%d]", path, i), depth+1); !ok {
+				return w, false
+			}
+		}
+		return path, true
+	case reflect.Map:
+		if a.Len() != b.Len() {
+			return path + "(len)", false
+		}
+		for _, k := range a.MapKeys() {
+			bv := b.MapIndex(k)
+			if !bv.IsValid() {
+				return fmt.Sprintf("%s[%v]", path, k), false
+			}
+			if w, ok := canonEqual(a.MapIndex(k), bv, fmt.Sprintf("%s[%v]", path, k), depth+1); !ok {
+				return w, false
+			}
+		}
+		return path, true
+	}
+	if a.CanInterface() && b.CanInterface() {
+		return path, reflect.DeepEqual(a.Interface(), b.Interface())
+	}
+	return path, true
+}
+
+func isCanonZero(v reflect.Value, depth int) bool {
+	if !v.IsValid() || depth > 12 {
+		return true
+	}
+	switch v.Kind() {
+	case reflect.Ptr, reflect.Interface:
+		return v.IsNil() || isCanonZero(v.Elem(), depth+1)
+	case reflect.Slice, reflect.Map:
+		return v.Len() == 0
+	case reflect.Struct:
+		for i := 0; i < v.NumField(); i++ {
+			if v.Type().Field(i).IsExported() && !isCanonZero(v.Field(i), depth+1) {
+				return false
+			}
+		}
+		return true
+	}
+	return v.IsZero()
+}
+
 type oneShot struct{ frame []byte }
 
 func (o *oneShot) Read() ([]byte, error)       { return o.frame, nil }
@@ -461,6 +608,25 @@ func structuralHostile(s *Sim, l *Link, upAlias, downAlias uint32, outstanding u
 	pb, err := convert.WireToProto(base)
 	if err != nil {
 		return nil, ""
+	}
+	if t.Bool("sh-enum-sweep", 1, 3) {
+		// only the enum-like fields (result codes, QoS, ...) are changed, each to some small number:
+		// every member of the enums, including the ones the implementation rarely meets
+		n := setEnumFields(t, reflect.ValueOf(pb), 0)
+		if n > 0 {
+			var out []byte
+			if l.cfg.EncodingName == transport.EncodingNameJSON {
+				var buf bytes.Buffer
+				m := jsonpb.Marshaler{}
+				if err := m.Marshal(&buf, pb); err != nil {
+					return nil, ""
+				}
+				out = buf.Bytes()
+			} else if out, err = proto.Marshal(pb); err != nil {
+				return nil, ""
+			}
+			return out, fmt.Sprintf("%T:enum-sweep(%d fields)", base, n)
+		}
 	}
 	what := damage(t, reflect.ValueOf(pb), 0)
 	for k := t.Choose("dmg-more", 3); k > 0; k-- { // up to three damaged fields
@@ -547,6 +713,11 @@ func damage(t *Tape, v reflect.Value, depth int) string {
 		f.Set(reflect.Zero(f.Type()))
 		return name + "=empty-map"
 	case reflect.Int32, reflect.Int64, reflect.Int:
+		if t.Bool("dmg-int-small", 1, 2) {
+			// every small number: known enum members the code rarely meets as well as their unknown neighbours
+			f.SetInt(int64(t.Choose("dmg-int-small-v", 128)))
+			return name + "=small-number"
+		}
 		f.SetInt(Pick(t, "dmg-int", int64(9999), -1, 1<<31-1, 0))
 		return name + "=odd-number"
 	case reflect.Uint32, reflect.Uint64:
